@@ -28,7 +28,7 @@ CHECKS = {
             "Trusts the scene model, SimDisk and SimPipe; the device is fault-free apart from short transfers, the only fault is the error of one blob source.",
             SIM + "seeded writer programs x blob length/placement residues x source/sink pipe chunk schedules vs. scene model", "DESIGN.md §5 C06"),
     "C11": (True, "exploration",
-            "Seeded search over page-layer histories: all PagedWriter histories of length <= 3 over a 20-op boundary alphabet plus random histories up to length 40, each under a seeded short-transfer schedule of the simulated device, checked operation by operation against a byte-vector model; then PagedReader histories over the result. Sampling, not proof.",
+            "Seeded search over page-layer histories: all PagedWriter histories of length <= 3 over a 22-op boundary alphabet (writes of non-zero, all-zero and all-0xFF data) plus random histories up to length 40, each under a seeded short-transfer schedule of the simulated device, checked operation by operation against a byte-vector model; then PagedReader histories over the result. Sampling, not proof.",
             "Trusts the byte-vector model, the bitwise CRC-32C in refcodec and SimDisk's File semantics; device fault-free apart from short transfers.",
             SIM + "seeded operation histories over a simulated device with short-transfer schedules vs. reference model", "DESIGN.md §5 C11"),
     "C15": (True, "fault_enumeration",
